@@ -125,14 +125,14 @@ def cli_case(task):
             args += ["--implicit-bin"]
         elif k == "stdout":
             args += ["-o", "-"]
-        (root / "main.mac").write_text(text)
+        (root / "main.mac").write_text(text.replace("@ROOT@", str(root)))
         for rel, content in (fs or {}).items():
             p = root / rel
             p.parent.mkdir(parents=True, exist_ok=True)
             if isinstance(content, bytes):
                 p.write_bytes(content)
             else:
-                p.write_text(content)
+                p.write_text(content.replace("@ROOT@", str(root)))
         res = run_cli(args + ["main.mac"], cwd=root)
         want_lst = path_of(scen["listing"], keep=scen["listing"]["keep"], ext="lst")
         want_out = None if k == "stdout" else path_of(scen["output"])
